@@ -103,15 +103,11 @@ Proof.
   assert (E : (bnum b <=? bnum hb) = true) by (apply N.leb_le; auto). rewrite E. reflexivity.
 Qed.
 
-(* outside the open finding: no block of the tree commits to a wrong transaction root only *)
-Hypothesis Hno5 : forall h b, info t h = Some b -> bbv b <> 5.
-
 Lemma canon_good_of_DInv : forall d, DInv d -> canon_good t d = true.
 Proof.
   intros d HD. unfold canon_good. apply forallb_forall. intros [n h] Hin. cbn [snd].
   destruct (D_canon t g d HD n h Hin) as [Hs _].
-  destruct (D_info t g d HD h Hs) as [b [I1 [[I2|I2] _]]]; rewrite I1; auto.
-  exfalso. eapply Hno5; eauto.
+  destruct (D_info t g d HD h Hs) as [b [I1 [I2 _]]]; rewrite I1; auto.
 Qed.
 
 Lemma consistent_of_Good : forall d, Good t g d -> consistent_b t d (d_headB d) = true.
